@@ -712,3 +712,18 @@ Proof.
     pose proof (quiet_step _ _ _ _ _ Hq Est) as Hq1.
     apply (IH c1); auto. eapply rv_step; eauto. eapply bounded_tag_b_ok; eauto.
 Qed.
+
+(* The statement "a pending plain read and a pending plain write never address the same next
+   cell" is FALSE: thread 0 has loaded the head word (free-list head 0) and is about to read
+   next[0] when thread 1 acquires index 0 and is about to write next[0] := capacity + 1.  Both
+   plain accesses are enabled in the same state of a sequentially consistent execution: a data
+   race on the UnsafeCell<u32>.  The value thread 0 reads is discarded (its CAS fails: the
+   head word changed). *)
+Definition specread_progs (t : nat) : list uop :=
+  match t with O => [UAcq] | S O => [UAcq] | _ => [] end.
+Definition specread_sched : list nat := [0;0; 1;1;1;1;1]%nat.
+Example uis_no_cell_conflict_refuted :
+  let c := fst (run ustep specread_sched (uinit 2 32 specread_progs)) in
+  reachable ustep (uinit 2 32 specread_progs) c /\
+  upc_of (snd c 0%nat) = AcqRead 0 0 /\ upc_of (snd c 1%nat) = AcqWrite 0 /\ hd_head 0 = 0.
+Proof. cbv zeta. split; [exists specread_sched; reflexivity|]. vm_compute. auto. Qed.
